@@ -508,3 +508,26 @@ func (t Template) CommandPath(isCommand func(path []string) bool) []string {
 	}
 	return p
 }
+
+// Masked removes from written *.log files the lines that legitimately differ between two runs
+// of the same command: dates, start / end times (minute resolution: two runs can straddle a
+// minute), elapsed time and the CPU count of the TBE log.
+func (o Observed) Masked() Observed {
+	files := map[string]string{}
+	for k, v := range o.Files {
+		if strings.HasSuffix(k, ".log") {
+			var keep []string
+			for _, l := range strings.Split(v, "\n") {
+				ll := strings.ToLower(l)
+				if strings.Contains(ll, "date") || strings.Contains(ll, "time") || strings.Contains(ll, "end") || strings.Contains(ll, "start") || strings.HasPrefix(ll, "cpus") {
+					continue
+				}
+				keep = append(keep, l)
+			}
+			v = strings.Join(keep, "\n")
+		}
+		files[k] = v
+	}
+	o.Files = files
+	return o
+}
